@@ -111,7 +111,10 @@ object_t* mudlib_connect(int port, const char* addr) {
    */
   add_ref (master_ob, "mudlib_connect");
   push_number (port);
-  ret = apply_master_ob (APPLY_CONNECT, 1);
+  /* connect() runs under its own recovery point: an uncaught error in it is reported as usual and then treated
+   * as a rejection, so the callers remove the half-initialised interactive (bound to master_ob) again.
+   * Without it the error unwound to backend() and the record, its slot and its socket leaked for ever. */
+  ret = safe_apply_master_ob (APPLY_CONNECT, 1);
   /* master_ob->interactive can be zero if the master object self destructed in the above. */
   if (ret == 0 || ret == (svalue_t *) - 1 || ret->type != T_OBJECT || !master_ob->interactive)
     {
